@@ -126,6 +126,9 @@ class SymNd(_np.ndarray):
 
     def astype(self, dtype, *a, **k):
         if self.dtype == object and _has_sym(self) and _floaty(dtype):
+            # the data ARE float64 on the real side: astype copies unless told not to
+            if k.get('copy') is False:
+                return self
             return self.copy()
         return _np.ndarray.astype(self, dtype, *a, **k)
 
@@ -481,6 +484,33 @@ def loadtxt(fname, dtype=float, comments='#', delimiter=None, converters=None, s
     return as_symnd(out)
 
 
+def zoom_stub(input, zoom, output=None, order=3, mode='constant', cval=0.0, prefilter=True, **k):
+    """scipy.ndimage.zoom on arrays that hold proxies.  Order 0 (nearest neighbour) is modelled exactly: output index o of an
+    axis with n_in cells zoomed to n_out = round(n_in * zoom) cells reads input index floor(o * (n_in - 1) / (n_out - 1) + 1/2)
+    (scipy's grid_mode=False mapping, exact rational arithmetic).  Spline orders have no meaning for proxies: flagged."""
+    from fractions import Fraction
+    import math
+    import scipy.ndimage as _ndi
+    a = input
+    symbolic = isinstance(a, _np.ndarray) and a.dtype == object and _has_sym(a)
+    if not symbolic:
+        return _ndi.zoom(_plain(a) if isinstance(a, _np.ndarray) else a, zoom, output=output, order=order, mode=mode, cval=cval, prefilter=prefilter, **k)
+    if order != 0 or k.get('grid_mode'):
+        core.cur().flag('symx: scipy.ndimage.zoom(order=%r) of symbolic data' % (order,))
+    zs = list(zoom) if isinstance(zoom, (list, tuple, _np.ndarray)) else [zoom] * a.ndim
+    out = _np.asarray(a, dtype=object)
+    for ax, z in enumerate(zs):
+        n_in = out.shape[ax]
+        n_out = builtins.int(round(n_in * float(z)))
+        if n_out <= 1 or n_in <= 1:
+            idx = [0] * max(n_out, 0)
+        else:
+            r = Fraction(n_in - 1, n_out - 1)
+            idx = [min(n_in - 1, math.floor(o * r + Fraction(1, 2))) for o in range(n_out)]
+        out = _np.take(out, idx, axis=ax)
+    return as_symnd(out)
+
+
 def linspace(start, stop, num=50, *a, **k):
     if core.is_sym(start) or core.is_sym(stop):
         n = builtins.int(num)
@@ -615,6 +645,14 @@ def frombuffer(buf, dtype=float, count=-1, offset=0, **k):
     return _np.frombuffer(buf, dtype, count, offset, **k)
 
 
+def asarray(a, dtype=None, *args, **k):
+    """np.asarray of float64 data to a float type hands back the SAME array (no copy): writes through the result reach the
+    original.  Object arrays holding proxies stand for float64 data."""
+    if isinstance(a, _np.ndarray) and a.dtype == object and _has_sym(a) and (dtype is None or _floaty(dtype)):
+        return a if isinstance(a, SymNd) else as_symnd(a)
+    return as_symnd(_np.asarray(a, dtype, *args, **k)) if dtype is not None else as_symnd(_np.asarray(a, *args, **k))
+
+
 def repeat(a, repeats, axis=None):
     from . import lv as _lv
     if isinstance(a, _lv.LV):
@@ -665,7 +703,7 @@ _OVERRIDES = {
     'amax': nmax, 'nanmin': nmin, 'nanmax': nmax, 'isclose': isclose, 'allclose': allclose,
     'where': where, 'nonzero': nonzero, 'flatnonzero': flatnonzero,
     'count_nonzero': count_nonzero, 'any': nany, 'all': nall, 'array': array,
-    'linspace': linspace, 'sum': nsum, 'isnan': nisnan,
+    'linspace': linspace, 'sum': nsum, 'isnan': nisnan, 'asarray': asarray, 'asanyarray': asarray,
 }
 
 
